@@ -48,6 +48,7 @@ func c19Parent(c *mon.Ctx) {
 	}
 	sh := shards("plain", "verdicts", 6, "-n", fmt.Sprint(per))
 	sh = append(sh, shards("plain", "consistency", 4, "-n", fmt.Sprint(per))...)
+	sh = append(sh, shards("plain", "streams", 3, "-n", fmt.Sprint(per/2))...)
 	sh = append(sh, shards("plain", "fsize", 3, "-n", fmt.Sprint(per/10+2))...)
 	sh = append(sh, shards("plain", "kill", 3, "-n", fmt.Sprint(per/20+1))...)
 	for i := range sh {
@@ -67,6 +68,11 @@ type c19Run struct {
 }
 
 func c19Exec(dir string, pre []string, args ...string) c19Run {
+	return c19ExecIn(dir, nil, pre, args...)
+}
+
+// c19ExecIn runs the binary with stdin connected to a pipe carrying input (nil: no stdin).
+func c19ExecIn(dir string, input []byte, pre []string, args ...string) c19Run {
 	ctx, cancel := context.WithTimeout(context.Background(), 120*time.Second)
 	defer cancel()
 	full := append(append([]string{}, pre...), c19Bin)
@@ -75,6 +81,9 @@ func c19Exec(dir string, pre []string, args ...string) c19Run {
 	cmd.Dir = dir
 	cmd.Env = []string{"HOME=" + dir, "PATH=/usr/bin:/bin", "GOMAXPROCS=2", "NO_COLOR=1"}
 	cmd.Stdin = nil
+	if input != nil {
+		cmd.Stdin = bytes.NewReader(input)
+	}
 	var o, e bytes.Buffer
 	cmd.Stdout, cmd.Stderr = &o, &e
 	err := cmd.Run()
@@ -231,6 +240,27 @@ func c19Child(a *ChildArgs) {
 		for i := 0; i < a.N; i++ {
 			r := rand.New(rand.NewSource(base + int64(i)*15485863))
 			c19Verdicts(a, r, avoid, dir)
+		}
+	case "streams":
+		dir := c19Scratch(a, "s")
+		defer os.RemoveAll(dir)
+		for i := 0; i < a.N; i++ {
+			r := rand.New(rand.NewSource(base + int64(i)*15485863 + 3))
+			c19Streams(a, r, avoid, dir)
+		}
+		if a.Shard == 0 {
+			// stdin beyond the size limit: a valid 10 MiB prefix followed by a broken tail is not valid input
+			// (the part below the limit is a complete, valid script on its own)
+			head := "SELECT 1 /*"
+			tailOK := "*/ ;"
+			big := head + strings.Repeat("c", 10<<20-len(head)-len(tailOK)) + tailOK + " SELECT FROM WHERE"
+			for _, c := range [][]string{{"validate"}, {"format"}, {"parse"}} {
+				run := c19ExecIn(dir, []byte(big), nil, c...)
+				a.Rec.Count("evaluations", 1)
+				if run.rc == 0 && !run.timedOut {
+					a.Rec.Viol("C19/streams/"+c[0]+"-stdin-oversize/exit-0", "commands exit with status zero exactly when the library accepts every given input", "stdin of "+fmt.Sprint(len(big))+" bytes whose tail is malformed was accepted (silently truncated?)", map[string]interface{}{"args": c, "stdout": trunc(run.out, 300), "stderr": trunc(run.err, 300)})
+				}
+			}
 		}
 	case "consistency":
 		dir := c19Scratch(a, "c")
@@ -441,6 +471,70 @@ func c19Verdicts(a *ChildArgs, r *rand.Rand, avoid map[string]bool, dir string) 
 	check("lint-fail-on-warn", append([]string{"lint", "--fail-on-warn"}, names...), &lw, judged)
 }
 
+// c19Streams: the same verdicts when the input arrives on stdin or as an inline argument, and for odd option values.
+func c19Streams(a *ChildArgs, r *rand.Rand, avoid map[string]bool, dir string) {
+	c19Clean(dir)
+	f := c19MakeFile(r, avoid, 0)
+	for f.blank {
+		f = c19MakeFile(r, avoid, 0)
+	}
+	// forms the CLI may not take for SQL text are left to the file path tests: keep to texts that start with a statement keyword
+	first := strings.ToUpper(strings.Fields(f.content + " x")[0])
+	wit := map[string]interface{}{"input": f.content, "library_accepts": f.accepted}
+	judge := func(label string, run c19Run, wantZero bool, args []string) {
+		a.Rec.Count("evaluations", 1)
+		a.Rec.Distinct("cases", label+"|"+strings.Join(args, " ")+"|"+f.content)
+		w := map[string]interface{}{"input": trunc(f.content, 600), "library_accepts": f.accepted, "args": args, "rc": run.rc, "stdout": trunc(run.out, 600), "stderr": trunc(run.err, 600)}
+		if run.timedOut {
+			a.Rec.Inconclusive("C19/streams/"+label+"/timeout", "CLI run exceeded the watchdog")
+			return
+		}
+		if run.rc > 1 || run.rc < 0 || strings.Contains(run.err, "panic:") || strings.Contains(run.err, "goroutine ") {
+			a.Rec.Viol("C19/streams/"+label+"/crash", "commands exit with status zero exactly when the library accepts every input", fmt.Sprintf("exit status %d: %s", run.rc, trunc(run.err, 300)), w)
+			return
+		}
+		if (run.rc == 0) != wantZero {
+			a.Rec.Viol(fmt.Sprintf("C19/streams/%s/exit-%d-library-%v", label, run.rc, wantZero), "commands exit with status zero exactly when the library accepts every given input", fmt.Sprintf("exit status %d, library verdict ok=%v", run.rc, wantZero), w)
+		}
+	}
+	_ = wit
+	in := []byte(f.content)
+	for _, c := range []struct {
+		label string
+		args  []string
+	}{{"validate-stdin", []string{"validate"}}, {"validate-stdin-dash", []string{"validate", "-"}}, {"format-stdin", []string{"format"}}, {"parse-stdin", []string{"parse"}}, {"validate-stdin-json", []string{"validate", "--output-format", "json"}}} {
+		judge(c.label, c19ExecIn(dir, in, nil, c.args...), f.accepted, c.args)
+	}
+	// comment-led and parenthesised texts on stdin are SQL like any other
+	for _, lead := range []string{"-- note\n", "/* c */ ", "\n\n  "} {
+		if f.accepted {
+			judge("parse-stdin-led", c19ExecIn(dir, []byte(lead+f.content), nil, "parse"), true, []string{"parse", "<stdin with lead " + strings.TrimSpace(lead) + ">"})
+			judge("validate-stdin-led", c19ExecIn(dir, []byte(lead+f.content), nil, "validate"), true, []string{"validate", "<stdin with lead>"})
+		}
+	}
+	// inline argument (the CLI only takes text that looks like SQL: statement keyword first, no newline games)
+	if (first == "SELECT" || first == "INSERT" || first == "UPDATE" || first == "DELETE" || first == "CREATE" || first == "WITH") && !strings.ContainsAny(f.content, "\n\r") && len(f.content) < 4000 {
+		for _, c := range [][]string{{"validate"}, {"parse"}, {"format"}} {
+			judge(c[0]+"-inline", c19Exec(dir, nil, append(c, f.content)...), f.accepted, append(c, "<inline>"))
+		}
+		if f.accepted {
+			// --check on inline text: exit status says whether the text is already formatted
+			p := c19Exec(dir, nil, "format", f.content)
+			chk := c19Exec(dir, nil, "format", "--check", f.content)
+			a.Rec.Count("evaluations", 1)
+			needs := strings.TrimRight(p.out, "\n") != strings.TrimRight(f.content, "\n")
+			if p.rc == 0 && needs != (chk.rc != 0) {
+				a.Rec.Viol(fmt.Sprintf("C19/streams/format-check-inline/needs-%v-rc-%d", needs, chk.rc), "the verdict of format --check is consistent with what format prints", fmt.Sprintf("format prints a different text: %v; format --check exit status %d", needs, chk.rc), map[string]interface{}{"input": f.content, "printed": trunc(p.out, 400), "stdout_check": trunc(chk.out, 400)})
+			}
+		}
+	}
+	// option values at and beyond their sensible range
+	os.WriteFile(filepath.Join(dir, "o.sql"), in, 0644)
+	for _, o := range [][]string{{"--indent", "-1"}, {"--indent", "0"}, {"--indent", "64"}, {"--max-line", "-5"}, {"--max-line", "0"}, {"--indent", "-100000"}} {
+		judge("format-option"+strings.Join(o, ""), c19Exec(dir, nil, append(append([]string{"format"}, o...), "o.sql")...), f.accepted, append([]string{"format"}, o...))
+	}
+}
+
 func c19Consistency(a *ChildArgs, r *rand.Rand, avoid map[string]bool, dir string) {
 	c19Clean(dir)
 	f := c19MakeFile(r, avoid, 0)
@@ -492,6 +586,37 @@ func c19Consistency(a *ChildArgs, r *rand.Rand, avoid map[string]bool, dir strin
 	needs := written != f.content
 	if needs != (chk.rc != 0) {
 		a.Rec.Viol(fmt.Sprintf("C19/consistency/check-verdict/needs-%v-rc-%d", needs, chk.rc), "the verdict of format --check is consistent with what format -i writes", fmt.Sprintf("format -i changed the file: %v; format --check exit status %d", needs, chk.rc), wit)
+	}
+	// what format prints, saved as a file, is formatted: --check must say so, with LF and with CRLF line ends alike
+	// judged against what -i then does to that file
+	for variant := 0; variant < 4; variant++ {
+		crlf := variant%2 == 1
+		text := printed
+		if variant >= 2 {
+			text = strings.TrimRight(printed, "\n") // exactly what -i writes
+		}
+		if crlf {
+			text = strings.ReplaceAll(strings.ReplaceAll(text, "\r\n", "\n"), "\n", "\r\n")
+		}
+		g := c19File{name: "g.sql", arg: "g.sql", content: text}
+		gfiles := []c19File{g}
+		c19WriteFiles(dir, gfiles)
+		p2 := c19Exec(dir, nil, append(append([]string{"format"}, opts...), g.name)...)
+		chkG := c19Exec(dir, nil, append(append([]string{"format", "--check"}, opts...), g.name)...)
+		wG := c19Exec(dir, nil, append(append([]string{"format", "-i"}, opts...), g.name)...)
+		a.Rec.Count("evaluations", 1)
+		if p2.timedOut || chkG.timedOut || wG.timedOut || p2.rc != 0 || wG.rc != 0 {
+			continue
+		}
+		writtenG := c19Snapshot(dir, gfiles)[g.name].content
+		w2 := map[string]interface{}{"file": text, "options": opts, "crlf": crlf, "printed": trunc(p2.out, 800), "written": trunc(writtenG, 800), "rc_check": chkG.rc}
+		if p2.out != writtenG && p2.out != writtenG+"\n" {
+			a.Rec.Viol(fmt.Sprintf("C19/consistency/print-vs-inplace/reformat-crlf-%v", crlf), "the text format prints and the text format -i writes are consistent", firstDiff(p2.out, writtenG), w2)
+		}
+		needsG := writtenG != text
+		if needsG != (chkG.rc != 0) {
+			a.Rec.Viol(fmt.Sprintf("C19/consistency/check-verdict/reformat-crlf-%v/needs-%v-rc-%d", crlf, needsG, chkG.rc), "the verdict of format --check is consistent with what format -i writes", fmt.Sprintf("format -i changed the file: %v; format --check exit status %d", needsG, chkG.rc), w2)
+		}
 	}
 	// formatting again must not need another change according to --check
 	chk2 := c19Exec(dir, nil, append(append([]string{"format", "--check"}, opts...), f.name)...)
